@@ -360,6 +360,63 @@ theorem mul_broadcast_spec (a b : Fld K) (h : Gen.mulBothOne a.size b.size = fal
     simp [ha, hb, hs, Fld.ofBroadcast, Fld.broadcastTo]
   · by_cases hs : (decide (a0 = b0) && decide (a1 = b1)) = true <;> simp [ha, hb, hs, Fld.ofBroadcast]
 
+/-- **the 0-d operand path of `_mul_broadcast`, regenerated with shapes that may be `()` (`Gen.mulBroadcastZ`: a shape is the
+triple (ndim, d0, d1), `()` = (0, 1, 1))**: whenever `Field.__mul__` sends the product to `_mul_array` (not both one-element), a
+0-d operand (one sample, what `Wavefront.__init__` creates) differs in shape from the other operand, is broadcast to its 2-D
+shape and inherits its offset — after `_mul_broadcast` **both operands are 2-D arrays, and they are exactly the operands the
+2-D translation `Gen.mulBroadcast` (hence the model `Fld.mul`: `mul_broadcast_spec`) computes from the 1×1 reading of the 0-d
+data**. This is why `ZFld.mul` may run `Fld.mul` on the 1×1 readings. -/
+theorem mul_broadcast_zd_spec (a b : ZFld K) (ha : a.zd = true → a.fld.size1 = true) (hb : b.zd = true → b.fld.size1 = true)
+    (h : Gen.mulBothOne a.fld.size b.fld.size = false) :
+    Gen.mulBroadcastZ (if a.zd then 0 else 2) a.fld.arr.s0 a.fld.arr.s1 a.fld.size a.fld.o0 a.fld.o1
+        (if b.zd then 0 else 2) b.fld.arr.s0 b.fld.arr.s1 b.fld.size b.fld.o0 b.fld.o1 =
+      (let g := Gen.mulBroadcast a.fld.arr.s0 a.fld.arr.s1 a.fld.size a.fld.o0 a.fld.o1
+          b.fld.arr.s0 b.fld.arr.s1 b.fld.size b.fld.o0 b.fld.o1
+       (g.1, (2, g.2.1.1, g.2.1.2), g.2.2.1, g.2.2.2.1, (2, g.2.2.2.2.1.1, g.2.2.2.2.1.2), g.2.2.2.2.2)) := by
+  rw [Fld.mulBothOne_eq] at h
+  have ea : decide (a.fld.size = 1) = a.fld.size1 := by
+    rw [Bool.eq_iff_iff, decide_eq_true_eq]; exact Fld.size_eq_one_iff_size1 a.fld
+  have eb : decide (b.fld.size = 1) = b.fld.size1 := by
+    rw [Bool.eq_iff_iff, decide_eq_true_eq]; exact Fld.size_eq_one_iff_size1 b.fld
+  obtain ⟨⟨⟨a0, a1, ag⟩, ao0, ao1⟩, az⟩ := a
+  obtain ⟨⟨⟨b0, b1, bg⟩, bo0, bo1⟩, bz⟩ := b
+  simp only [Gen.mulBroadcastZ, Gen.mulBroadcast, ea, eb]
+  simp only [Fld.size1] at h ha hb ⊢
+  clear ea eb
+  by_cases h1 : (decide (a0 = 1) && decide (a1 = 1)) = true <;> by_cases h2 : (decide (b0 = 1) && decide (b1 = 1)) = true
+  · simp [h1, h2] at h
+  · have hs : (decide (a0 = b0) && decide (a1 = b1)) = false := by
+      simp only [Bool.and_eq_true, decide_eq_true_eq, Bool.and_eq_false_iff, decide_eq_false_iff_not] at h1 h2 ⊢
+      omega
+    have hbz : bz = false := by
+      cases bz
+      · rfl
+      · exact absurd (hb rfl) h2
+    subst hbz
+    cases az <;> simp [h1, h2, hs]
+  · have hs : (decide (a0 = b0) && decide (a1 = b1)) = false := by
+      simp only [Bool.and_eq_true, decide_eq_true_eq, Bool.and_eq_false_iff, decide_eq_false_iff_not] at h1 h2 ⊢
+      omega
+    have haz : az = false := by
+      cases az
+      · rfl
+      · exact absurd (ha rfl) h1
+    subst haz
+    cases bz <;> simp [h1, h2, hs]
+  · have haz : az = false := by
+      cases az
+      · rfl
+      · exact absurd (ha rfl) h1
+    have hbz : bz = false := by
+      cases bz
+      · rfl
+      · exact absurd (hb rfl) h2
+    subst haz hbz
+    by_cases hs : (decide (a0 = b0) && decide (a1 = b1)) = true <;> simp [h1, h2, hs]
+/-- a 0-d operand against a 2×3 array: broadcast to (2, 2, 3) at the array's offset; the array is left alone -/
+example : Gen.mulBroadcastZ 0 1 1 1 0 0 2 2 3 6 (-1) 4 = (1, (2, 2, 3), (-1, 4), 0, (2, 2, 3), (-1, 4)) ∧
+    Gen.mulBroadcastZ 2 2 3 6 (-1) 4 0 1 1 1 0 0 = (0, (2, 2, 3), (-1, 4), 1, (2, 2, 3), (-1, 4)) := ⟨rfl, rfl⟩
+
 /-- **`Field.__mul__` through the regenerated `_mul_broadcast`**: whenever the generated dispatch test sends the product to
 `_mul_array`, the model product is `_mul_array`'s overlap product of the two operands the generated `_mul_broadcast` returns
 (so `mul_emb` / `mul_sem` / `mul_empty_iff` speak about the operands the source computes) -/
